@@ -6,6 +6,7 @@
  *   inject <errno>...      accept <sid> [busy]     drain <sid>     closesrv <sid>     closecli <cid>
  *   ipcbig <kinds> <payload> <caps..>   (uv_write2 with handle + payload; the k-th syscall on the sending fd accepts at most caps[k] bytes, -11 = EAGAIN, 0 = unlimited)
  *   server .. <backlog>   (optional 5th word)     cscript <codes..>   (results of the connect(2) calls of the NEXT uvc: 1 = real call, -4 = EINTR then retry, other -errno = fail without reaching the kernel)
+ *   uvcb <cid> <sid> inuse|free|twice   (tcp client handle with a prior state: uv_tcp_bind to a port in use (EADDRINUSE deferred) / to a free port / a second uv_tcp_connect while the first is pending)
  *   badconnect <cid> tcp|pipe|long|longnt [close]     dblconnect <cid> <cid>     ipc <kinds> <late|imm|N>     wcheck     end
  * Output: one line per API result / callback / observation (see checks/c07_sim.py). */
 #include <uv.h>
@@ -98,6 +99,13 @@ typedef struct { uv_stream_t* h; int sid; int seq; } acc_t;
 static server_t srv[MAXN]; static client_t cli[MAXN]; static acc_t accd[512]; static int naccd;
 
 static int cid_of_fd(int fd) { int i; for (i = 0; i < MAXN; i++) if (cli[i].used && !cli[i].raw && !cli[i].closed && cli[i].h && cli[i].h->io_watcher.fd == fd) return i; return -1; }
+static int port_of(uv_handle_t* h, int peer) {
+  struct sockaddr_storage ss; socklen_t l = sizeof ss; int fd = -1;
+  if (uv_fileno(h, &fd) || (peer ? getpeername(fd, (struct sockaddr*) &ss, &l) : getsockname(fd, (struct sockaddr*) &ss, &l))) return -1;
+  if (ss.ss_family == AF_INET) return ntohs(((struct sockaddr_in*) &ss)->sin_port);
+  if (ss.ss_family == AF_INET6) return ntohs(((struct sockaddr_in6*) &ss)->sin6_port);
+  return -1;
+}
 static void free_cb(uv_handle_t* h) { free(h); }
 static uv_stream_t* new_stream(int kind) {      /* 0 t4, 1 t6, 2 unix */
   if (kind == 2) { uv_pipe_t* p = malloc(sizeof *p); uv_pipe_init(loop, p, 0); return (uv_stream_t*) p; }
@@ -132,7 +140,7 @@ static void connect_cb(uv_connect_t* req, int status) {
   cli[cid].cbs++; cli[cid].status = status;
   { struct sockaddr_storage ss; socklen_t l = sizeof ss; int fd = -1, peer = 0;
     if (!cli[cid].closed && uv_fileno((uv_handle_t*) cli[cid].h, &fd) == 0) peer = getpeername(fd, (struct sockaddr*) &ss, &l) == 0;
-    printf("concb %d status=%d peer=%d\n", cid, status, peer); }
+    printf("concb %d status=%d peer=%d lport=%d\n", cid, status, peer, cli[cid].closed ? -1 : port_of((uv_handle_t*) cli[cid].h, 0)); }
   if (status == 0 && !cli[cid].closed) {
     char b = (char) cid; uv_buf_t buf = uv_buf_init(&b, 1);
     int r = uv_try_write(cli[cid].h, &buf, 1);
@@ -345,6 +353,22 @@ int main(void) {
         c->ret = r;
         printf("uvc %d r=%d kind=%s\n", cid, r, srv[sid].kind == 2 ? "pipe" : "tcp");
       }
+    } else if (!strcmp(w[0], "uvcb") && n == 4) {
+      int cid = atoi(w[1]), sid = atoi(w[2]), r, rb = 0; client_t* c = &cli[cid]; struct sockaddr_storage ss, bs; socklen_t len;
+      if (srv[sid].kind == 2) { printf("bad-op\n"); continue; }
+      c->used = 1; c->sid = sid; c->raw = 0; srv_addr(sid, &ss, &len);
+      c->h = new_stream(srv[sid].kind); c->req.data = (void*)(long) cid;
+      if (w[3][0] == 'i') { rb = uv_tcp_bind((uv_tcp_t*) c->h, (struct sockaddr*) &ss, 0); printf("bind %d inuse r=%d\n", cid, rb); }
+      else if (w[3][0] == 'f') {
+        if (srv[sid].kind == 0) uv_ip4_addr("127.0.0.1", 0, (struct sockaddr_in*) &bs); else uv_ip6_addr("::1", 0, (struct sockaddr_in6*) &bs);
+        rb = uv_tcp_bind((uv_tcp_t*) c->h, (struct sockaddr*) &bs, 0); printf("bind %d free r=%d\n", cid, rb);
+      }
+      cur_cid = cid;
+      r = uv_tcp_connect(&c->req, (uv_tcp_t*) c->h, (struct sockaddr*) &ss, connect_cb);
+      c->ret = r;
+      printf("uvc %d r=%d kind=tcp\n", cid, r);
+      if (w[3][0] == 't') { static uv_connect_t second[MAXN]; int r2 = uv_tcp_connect(&second[cid], (uv_tcp_t*) c->h, (struct sockaddr*) &ss, connect_cb); second[cid].data = (void*)(long) cid; printf("uvc2 %d r=%d\n", cid, r2); }
+      cur_cid = -1; ncscript = icscript = 0;
     } else if (!strcmp(w[0], "run") && n == 2) { run_n(atoi(w[1])); printf("ran spare=%d\n", loop->emfile_fd != -1);
     } else if (!strcmp(w[0], "inject")) { ninject = iinject = 0; for (i = 1; i < n; i++) inject[ninject++] = atoi(w[i]); printf("inject %d\n", ninject);
     } else if (!strcmp(w[0], "accept") && n >= 2) { do_accept(atoi(w[1]), n > 2);
@@ -396,8 +420,8 @@ int main(void) {
     int fd = -1; char b[8]; ssize_t k;
     uv_fileno((uv_handle_t*) accd[i].h, &fd);
     k = recv(fd, b, sizeof b, MSG_DONTWAIT);
-    if (k > 0) printf("acc %d seq=%d token=%d extra=%d\n", accd[i].sid, accd[i].seq, (unsigned char) b[0], (int) k - 1);
-    else printf("acc %d seq=%d token=%s\n", accd[i].sid, accd[i].seq, k == 0 ? "eof" : "none");
+    if (k > 0) printf("acc %d seq=%d token=%d extra=%d pport=%d\n", accd[i].sid, accd[i].seq, (unsigned char) b[0], (int) k - 1, port_of((uv_handle_t*) accd[i].h, 1));
+    else printf("acc %d seq=%d token=%s pport=%d\n", accd[i].sid, accd[i].seq, k == 0 ? "eof" : "none", port_of((uv_handle_t*) accd[i].h, 1));
   }
   for (int i = 0; i < MAXN; i++) if (cli[i].used) {
     client_t* c = &cli[i]; int fd = -1;
